@@ -104,6 +104,11 @@ def main(pid, tier):
     seed = int(os.environ.get("VERIF_SEED", "0") or 0)
     h = harness_mod(pid)
     groups = list(h.groups(tier).keys())
+    only = os.environ.get("VF_ONLY")          # developer option: run a subset of the groups (evidence goes to a scratch dir)
+    if only:
+        import re
+        groups = [g for g in groups if re.search(only, g)]
+        os.environ.setdefault("VF_EVIDENCE_DIR", tempfile.mkdtemp(prefix="vf_only_ev_"))
     tmp = tempfile.mkdtemp(prefix=f"vf_{pid}_")
     results = []      # (ob, res)
     build_info = {}
